@@ -1076,23 +1076,8 @@ Section JetProofs.
 
   (* ---- the repaired recursion: t as one more variable with tangent 1 ---- *)
   (* F_{n+1} = <grad_x F_n, (x_1, .., f)> + dF_n/dt : what jetexpand_ode_via_jvp
-     would compute if t were passed to jvp as an extra primal with tangent 1 *)
-  Definition pone : poly := [(1, [])].
-  Definition jvp_step_poly_fixed (v : vfield) (g : poly) : poly :=
-    padd (jvp_step_poly v g) (pmul (diff_poly (vf_k v * vf_d v) g) pone).
-  Fixpoint jvp_polys_fixed (v : vfield) (n : nat) : list poly :=
-    match n with O => vf_f v | S n' => map (jvp_step_poly_fixed v) (jvp_polys_fixed v n') end.
-  Definition via_jvp_fixed_model (v : vfield) (inits : list tvec) (t : F) (num : nat)
-    : option (list tvec) :=
-    match num with
-    | O => Some inits
-    | S _ =>
-      if Nat.eqb (length inits) (vf_k v)
-      then Some (inits ++ map (fun n => map (eval_poly (vf_env inits t)) (jvp_polys_fixed v n))
-                              (seq 0 num))
-      else None
-    end.
-
+     would compute if t were passed to jvp as an extra primal with tangent 1
+     (Model/Jet.v via_jvp_fixed_model) *)
   Lemma fs_compose_pone (env : list fs) : fs_compose env pone == fs_const 1.
   Proof.
     change (fs_add (fs_scale 1 (fs_exps env [])) (fs_const 0) == fs_const 1).
@@ -1721,6 +1706,43 @@ Section Doubling.
     rewrite unroll_correct by (try assumption; lia). reflexivity.
   Qed.
 End Doubling.
+
+(* ================================ Part 7: the pytree wrapper's bookkeeping *)
+Section Pytree.
+  Context {F : Type} `{FieldOps F}.
+
+  Lemma index_of_nth i (perm : list nat) : In i perm -> nth (index_of i perm) perm 0%nat = i.
+  Proof.
+    induction perm as [|j perm IH]; intros [].
+    - subst j. simpl. rewrite Nat.eqb_refl. reflexivity.
+    - simpl. destruct (Nat.eqb_spec i j) as [->|Hne]; [reflexivity|]. simpl. apply IH. assumption.
+  Qed.
+  Lemma index_of_lt i (perm : list nat) : In i perm -> index_of i perm < length perm.
+  Proof.
+    induction perm as [|j perm IH]; intros [].
+    - subst j. simpl. rewrite Nat.eqb_refl. lia.
+    - simpl. destruct (Nat.eqb_spec i j); [lia|]. specialize (IH H0). lia.
+  Qed.
+
+  (* unravel after ravel is the identity on d-vectors whenever the flattening
+     order [perm] lists every natural coordinate 0..d-1 *)
+  Theorem unpermute_permute (perm : list nat) (x : list F) :
+    length x = length perm -> (forall i, i < length perm -> In i perm) ->
+    unpermute_vec perm (permute_vec perm x) = x.
+  Proof.
+    intros HL Hcov. unfold unpermute_vec, permute_vec.
+    apply (list_eq_nth (@f0 F _)).
+    - rewrite map_length, seq_length. symmetry. exact HL.
+    - intros i Hi. rewrite map_length, seq_length in Hi.
+      rewrite (nth_indep _ f0 (vget (map (fun i0 => vget x i0) perm) (index_of 0 perm)))
+        by (rewrite map_length, seq_length; exact Hi).
+      rewrite (map_nth (fun i0 => vget (map (fun i1 => vget x i1) perm) (index_of i0 perm))).
+      rewrite seq_nth by exact Hi. simpl plus. unfold vget at 1.
+      rewrite (nth_indep _ f0 (vget x 0%nat)) by (rewrite map_length; apply index_of_lt; apply Hcov; exact Hi).
+      rewrite (map_nth (fun i1 => vget x i1)). rewrite index_of_nth by (apply Hcov; exact Hi).
+      reflexivity.
+  Qed.
+End Pytree.
 
 (* =========================================== Part 5: refutations (at Qc) *)
 (* u' = t u + t^2, u(1/2) = 1 : variables (u, t) *)
